@@ -146,6 +146,10 @@ def decorate_cases(cases, rng, names_rate=0.0, past_rate=0.0):
             continue
         elems = sorted({e for r in c["D"] for b in r for e in b if isinstance(e, int)})
         all_int = all(isinstance(e, int) for r in c["D"] for b in r for e in b)
+        # a candidate ranking of the case may hold elements the dataset does not have: they are renamed too (the renaming stays injective)
+        if isinstance(c.get("c"), list) and all(isinstance(b, list) for b in c["c"]):
+            all_int = all_int and all(isinstance(e, int) for b in c["c"] for e in b)
+            elems = sorted(set(elems) | {e for b in c["c"] for e in b if isinstance(e, int)})
         c2 = c
         if all_int and elems and len(elems) <= len(HOSTILE_NAMES) and rng.random() < names_rate:
             c2 = dict(c2)
